@@ -118,3 +118,61 @@ pub fn damaged_item() {
     }
     sym::reach(1);
 }
+
+/// merge history c1 <- cA (a), c1 <- cB (b), {cA, cB} <- cM: one stored item is removed or has one byte replaced;
+/// the replica opened on it shows exactly the state of the largest intact, causally complete set of blocks.
+pub fn damaged_merge() {
+    use melda::melda::DeltaId;
+    let a = Rep::new();
+    a.m.update(doc_with(&["a", "b"], &["x".to_string(), "y".to_string()], "t")).unwrap();
+    let c1: DeltaId = a.m.commit(None).unwrap().unwrap().into_iter().next().unwrap();
+    let s1 = state(&a.m);
+    let mut b = Rep::new();
+    b.pull(&a);
+    a.m.update(doc_with(&["a", "b", "c"], &["x".to_string(), "y".to_string(), "z".to_string()], "t")).unwrap();
+    let ca: DeltaId = a.m.commit(None).unwrap().unwrap().into_iter().next().unwrap();
+    let s_a = state(&a.m);
+    b.m.update(doc_with(&["b", "a"], &["y".to_string(), "w".to_string()], "t")).unwrap();
+    let cb: DeltaId = b.m.commit(None).unwrap().unwrap().into_iter().next().unwrap();
+    let s_b = state(&b.m);
+    let mut a = a;
+    a.pull(&b);
+    let s_ab = state(&a.m);
+    let mut d = a.m.read(None).unwrap();
+    d.insert("x".to_string(), serde_json::Value::from(1));
+    a.m.update(d).unwrap();
+    let cm: DeltaId = a.m.commit(None).unwrap().unwrap().into_iter().next().unwrap();
+    // items of each block
+    let items_of = |id: &DeltaId| -> Vec<String> {
+        let dl = a.m.get_delta(id).unwrap().unwrap();
+        let mut v = vec![id.to_string() + ".delta"];
+        v.extend(dl.packs.clone().unwrap_or_default().into_iter().map(|p| p + ".pack"));
+        v
+    };
+    let groups = [(items_of(&c1), empty_state()), (items_of(&ca), s_b.clone()), (items_of(&cb), s_a.clone()), (items_of(&cm), s_ab.clone())];
+    let _ = &s1;
+    let g = sym::choose(groups.len());
+    let key = groups[g].0[sym::choose(groups[g].0.len())].clone();
+    let expected = groups[g].1.clone();
+    let original = a.ad.read().unwrap().read_object(&key, 0, 0).unwrap();
+    let damaged: Option<Vec<u8>> = if sym::any_bool() {
+        None
+    } else {
+        let pos = original.len() / 2;
+        let nb = sym::any_u8();
+        sym::assume(nb != original[pos]);
+        let mut c = original.clone();
+        c[pos] = nb;
+        Some(c)
+    };
+    sym::observe_str(&key);
+    let bad = copy_storage(&a.ad, Some(&key), damaged.as_deref());
+    if let Some(s) = open_state(&bad) {
+        if s != expected {
+            sym::debug_str("shown   ", &s);
+            sym::debug_str("expected", &expected);
+        }
+        assert!(s == expected, "a damaged or missing item influenced the visible state");
+    }
+    sym::reach(1);
+}
